@@ -11,9 +11,11 @@ namespace CM
 namespace Tie
 
 /-- `array_.toZeroBased` as written in array.go = `Seq.toZeroBased` -/
-theorem toZeroBased_tie (va : Int → Int) (n : Nat) (slot index : Int) :
+theorem toZeroBased_tie (va : Int → Int) (n : Nat) (slot index : Int) (hn : IsInt64 n) (hi : IsInt64 index) :
     Generated.toZeroBased va n slot index = (Seq.toZeroBased n index).map (fun (p : Nat) => ((p : Int), slot)) := by
   unfold Generated.toZeroBased Seq.toZeroBased
+  have eneg : w64 (-(n : Int)) = -(n : Int) := w64_id (by unfold IsInt64 at *; omega)
+  simp only [eneg]
   by_cases h0 : n = 0
   · subst h0; simp [Except.map]
   · have hn : ¬ ((n : Int) == 0) = true := by simp; omega
@@ -31,15 +33,19 @@ theorem toZeroBased_tie (va : Int → Int) (n : Nat) (slot index : Int) :
         simp only [this, h2, if_false, Bool.false_eq_true]
         by_cases h3 : index < 0
         · simp only [h3, decide_true, if_true, Except.map]
+          rw [w64_id (by unfold IsInt64 at *; omega)]
           congr 2; omega
         · have h4 : index > 0 := by omega
           simp only [h3, h4, decide_false, decide_true, if_true, if_false, Bool.false_eq_true, Except.map]
+          rw [w64_id (by unfold IsInt64 at *; omega)]
           congr 2; omega
 
 /-- `list_.toNormalized` as written in list.go = `Seq.toNormalized` -/
-theorem toNormalized_tie (va : Int → Int) (n : Nat) (slot index : Int) :
+theorem toNormalized_tie (va : Int → Int) (n : Nat) (slot index : Int) (hn : IsInt64 n) (hi : IsInt64 index) :
     Generated.toNormalized va n slot index = (Seq.toNormalized n index).map (fun (p : Int) => (p, slot)) := by
   unfold Generated.toNormalized Seq.toNormalized
+  have eneg : w64 (-(n : Int)) = -(n : Int) := w64_id (by unfold IsInt64 at *; omega)
+  simp only [eneg]
   by_cases h0 : n = 0
   · subst h0; simp [Except.map]
   · have hn : ¬ ((n : Int) == 0) = true := by simp; omega
@@ -56,7 +62,9 @@ theorem toNormalized_tie (va : Int → Int) (n : Nat) (slot index : Int) :
           simp only [Bool.or_eq_true, decide_eq_true_eq]; exact h2
         simp only [this, h2, if_false, Bool.false_eq_true]
         by_cases h3 : index < 0
-        · simp [h3, Except.map]
+        · have e1 : w64 (index + (n : Int)) = index + n := w64_id (by unfold IsInt64 at *; omega)
+          have e2 : w64 (index + (n : Int) + 1) = index + n + 1 := w64_id (by unfold IsInt64 at *; omega)
+          simp [h3, Except.map, e1, e2]
         · have h4 : index > 0 := by omega
           simp [h3, h4, Except.map]
 
@@ -67,20 +75,23 @@ variable (s : Iter.St Int)
 /-- `values_[k]` of the snapshot -/
 def va (s : Iter.St Int) (k : Int) : Int := s.values.getD k.toNat default
 
-theorem iterGetNext_tie :
+theorem iterGetNext_tie (hs : IsInt64 (Iter.size s)) (hp : IsInt64 s.slot) :
     Generated.iterGetNext (va s) (Iter.size s) s.slot =
       .ok (match (Iter.step s .getNext).2 with | .val a => a | _ => 0, (Iter.step s .getNext).1.slot) := by
   unfold Generated.iterGetNext Iter.step
   by_cases h : s.slot < Iter.size s
-  · simp [h, va, Iter.at1]
+  · have e1 : w64 (s.slot + 1) = s.slot + 1 := w64_id (by unfold IsInt64 at *; omega)
+    have e2 : w64 s.slot = s.slot := w64_id hp
+    simp [h, va, Iter.at1, e1, e2]
   · simp [h]
 
-theorem iterGetPrevious_tie :
+theorem iterGetPrevious_tie (hp : IsInt64 s.slot) :
     Generated.iterGetPrevious (va s) (Iter.size s) s.slot =
       .ok (match (Iter.step s .getPrevious).2 with | .val a => a | _ => 0, (Iter.step s .getPrevious).1.slot) := by
   unfold Generated.iterGetPrevious Iter.step
   by_cases h : s.slot > 0
-  · simp [h, va, Iter.at1]
+  · have e1 : w64 (s.slot - 1) = s.slot - 1 := w64_id (by unfold IsInt64 at *; omega)
+    simp [h, va, Iter.at1, e1]
   · simp [h]
 
 theorem iterHasNext_tie :
@@ -101,12 +112,15 @@ theorem iterToEnd_tie :
     Generated.iterToEnd (va s) (Iter.size s) s.slot = .ok (0, (Iter.step s .toEnd).1.slot) := by
   simp [Generated.iterToEnd, Iter.step]
 
-theorem iterToSlot_tie (k : Int) :
+theorem iterToSlot_tie (k : Int) (hs : IsInt64 (Iter.size s)) (hk : IsInt64 k) :
     Generated.iterToSlot (va s) (Iter.size s) s.slot k = .ok (0, (Iter.step s (.toSlot k)).1.slot) := by
   simp only [Generated.iterToSlot, Iter.step, Iter.toSlot]
   have hsz : (0 : Int) ≤ Iter.size s := by simp [Iter.size]
-  generalize Iter.size s = n at hsz ⊢
-  simp only [decide_eq_true_eq]
+  generalize Iter.size s = n at hsz hs ⊢
+  have eneg : w64 (-n) = -n := w64_id (by unfold IsInt64 at *; omega)
+  simp only [eneg, decide_eq_true_eq]
+  unfold IsInt64 at hs hk
+  simp only [w64]
   repeat' split
   all_goals first
     | rfl
